@@ -697,6 +697,44 @@ let rec run cfg s = function
    | Misuse -> Misuse :: []
    | x -> x :: (run cfg (res_state x s) r))
 
+type init_data = { d_parents : nat option list; d_indices : nat list;
+                   d_secondary_counts : nat list; d_vacancies : nat list;
+                   d_track_counters : nat list; d_initializers : nat }
+
+(** val resize_init_data : config -> init_data **)
+
+let resize_init_data cfg =
+  let size = cfg.n_slots in
+  { d_parents = (repeat None size); d_indices =
+  (if cfg.charge_order then repeat O size else []); d_secondary_counts =
+  (repeat O (add size (S O))); d_vacancies = (seq O size); d_track_counters =
+  (repeat O cfg.n_events); d_initializers = cfg.capacity }
+
+(** val data_assigned : init_data -> bool **)
+
+let data_assigned d =
+  (&&)
+    ((&&)
+      ((&&)
+        ((&&) (Nat.eqb (length d.d_parents) (length d.d_vacancies))
+          ((||) (Nat.eqb (length d.d_indices) (length d.d_vacancies))
+            (Nat.eqb (length d.d_indices) O)))
+        (Nat.eqb (length d.d_secondary_counts)
+          (add (length d.d_vacancies) (S O))))
+      (negb (Nat.eqb (length d.d_track_counters) O)))
+    (negb (Nat.eqb d.d_initializers O))
+
+(** val construct_state : config -> (state * init_data) option **)
+
+let construct_state cfg =
+  if Nat.eqb cfg.n_slots O
+  then None
+  else let d = resize_init_data cfg in
+       Some ({ slots = (repeat dflt_slot cfg.n_slots); stack = []; parents =
+       d.d_parents; vac = d.d_vacancies; cnt = { c_gen = O; c_init = O;
+       c_vac = cfg.n_slots; c_active = O; c_sec = O; c_alive = O }; next_id =
+       d.d_track_counters; ph = Ready }, d)
+
 (** val enc_opt : nat option -> nat **)
 
 let enc_opt = function
@@ -753,3 +791,31 @@ let run_case n cap charge nev ops =
     nev }
   in
   map enc_result (run cfg (init_state cfg) ops)
+
+(** val b2n : bool -> nat **)
+
+let b2n = function
+| true -> S O
+| false -> O
+
+(** val fresh_case : nat -> nat -> bool -> nat -> nat list **)
+
+let fresh_case n cap charge nev =
+  let cfg = { n_slots = n; capacity = cap; charge_order = charge; n_events =
+    nev }
+  in
+  (match construct_state cfg with
+   | Some p ->
+     let (s, d) = p in
+     let c = s.cnt in
+     app ((S
+       O) :: ((length d.d_parents) :: ((length d.d_indices) :: ((length
+                                                                  d.d_secondary_counts) :: (
+       (length d.d_vacancies) :: ((length d.d_track_counters) :: (d.d_initializers :: (
+       (b2n (data_assigned d)) :: []))))))))
+       (app
+         (c.c_gen :: (c.c_init :: (c.c_vac :: (c.c_active :: (c.c_sec :: (c.c_alive :: []))))))
+         (app (map (fun sl -> status_code sl.sst) s.slots)
+           (app (map enc_opt d.d_parents)
+             (app (map (fun x -> S x) d.d_vacancies) d.d_track_counters))))
+   | None -> O :: [])
